@@ -126,6 +126,16 @@ def cartAligned [Add F] [Sub F] [One F] [Neg F] [LE F] [DecidableLE F] (tol : F)
 def findTransform [Add F] [Sub F] [Mul F] (m n nAxis ξAxis : Vec F) : Mat F := fun i c =>
   m i * (cross nAxis ξAxis) c + n i * nAxis c + (cross m n) i * ξAxis c
 
+/-- `Box.vector_crystal_to_cartesian` of a Miller line `[uvw]` in the cell with rows `a, b, c`: `u a + v b + w c`. -/
+def millerLine [Add F] [Mul F] (V : Mat F) (u : Vec F) : Vec F := fun c => sum3 fun i => u i * V i c
+
+/-- the normal of the Miller plane `(hkl)` as the reciprocal-lattice vector times the cell volume,
+    `h (b×c) + k (c×a) + l (a×b)`: for a right-handed cell a POSITIVE multiple of the unit vector that
+    `plane_crystal_to_cartesian` returns (whatever pair of in-plane lattice vectors the code picks for the zero pattern
+    and the signs of `h, k, l`). -/
+def millerNormal [Add F] [Sub F] [Mul F] (V : Mat F) (h : Vec F) : Vec F := fun c =>
+  h 0 * cross (V 1) (V 2) c + h 1 * cross (V 2) (V 0) c + h 2 * cross (V 0) (V 1) c
+
 /-- `a[isclose(a / big, 0, atol=tol)] = 0` -/
 def chop [Zero F] [Neg F] [Div F] [LE F] [DecidableLE F] (tol big v : F) : F :=
   if decide (-tol ≤ v / big) && decide (v / big ≤ tol) then 0 else v
